@@ -243,7 +243,7 @@ Proof.
     apply withinb_iff, H.
   - rewrite (unavail_unused st' _) by (rewrite Hp; exact Hno).
     pose proof (countb_nonneg (fun v => sel_wl ns w v && p_exists v
-                  && (negb (p_ready v) || has_job true st v)) (a_pods st)).
+                  && (negb (p_avail v) || has_job true st v)) (a_pods st)).
     unfold within, unavail. lia.
 Qed.
 
